@@ -81,7 +81,7 @@ def cv_args(wd, gvfs, out='out.fasta', index_dir=None, **kw) -> argparse.Namespa
     a.min_nodes_to_collapse = 30
     a.naa_to_collapse = 5
     a.noncanonical_transcripts = False
-    a.timeout_seconds = 90
+    a.timeout_seconds = 30
     a.coding_novel_orf = False
     a.skip_failed = False
     for k, v in kw.items():
